@@ -89,11 +89,13 @@ func (d *updogDriver) openFile(file string, optValues url.Values) (driver.Conn, 
 		opts = append(opts, updog.WithCache(lruCache))
 	}
 
-	d.fileConnMtx.RLock()
-	conn, ok := d.fileConnCache[key]
-	d.fileConnMtx.RUnlock()
+	// lookup, open and insert are one critical section: otherwise two goroutines using a
+	// fresh handle at the same time both try to open the file, and the second one blocks
+	// for ever on the file lock held by the first.
+	d.fileConnMtx.Lock()
+	defer d.fileConnMtx.Unlock()
 
-	if ok {
+	if conn, ok := d.fileConnCache[key]; ok {
 		conn.refs.Add(1)
 		return conn, nil
 	}
@@ -103,17 +105,41 @@ func (d *updogDriver) openFile(file string, optValues url.Values) (driver.Conn, 
 		return nil, fmt.Errorf("couldn't open index file %q: %v", file, err)
 	}
 
-	conn = &fileConn{
+	conn := &fileConn{
+		d:   d,
+		key: key,
 		idx: idx,
 	}
 
-	d.fileConnMtx.Lock()
-	d.fileConnCache[key] = conn
-	d.fileConnMtx.Unlock()
-
 	conn.refs.Add(1)
 
+	d.fileConnCache[key] = conn
+
 	return conn, nil
+}
+
+// release drops one reference to a shared connection; the last one removes the connection
+// from the cache (so that a later Open creates a new one) and closes the index.
+func (d *updogDriver) release(c *fileConn) error {
+	d.fileConnMtx.Lock()
+	defer d.fileConnMtx.Unlock()
+
+	if c.refs.Add(-1) > 0 {
+		return nil
+	}
+
+	if d.fileConnCache[c.key] == c {
+		delete(d.fileConnCache, c.key)
+	}
+
+	idx := c.idx
+	c.idx = nil
+
+	if idx == nil {
+		return nil
+	}
+
+	return idx.Close()
 }
 
 func (d *updogDriver) openConn(host string, port string) (driver.Conn, error) {
@@ -126,6 +152,9 @@ func (d *updogDriver) openConn(host string, port string) (driver.Conn, error) {
 }
 
 type fileConn struct {
+	d   *updogDriver
+	key fileCacheKey
+
 	idx *updog.Index
 
 	refs atomic.Int32
@@ -148,13 +177,7 @@ func (c *fileConn) prepare(query string) (*fileStmt, error) {
 }
 
 func (c *fileConn) Close() error {
-	if c.refs.Add(-1) <= 0 {
-		idx := c.idx
-		c.idx = nil
-		return idx.Close()
-	}
-
-	return nil
+	return c.d.release(c)
 }
 
 func (c *fileConn) Begin() (driver.Tx, error) {
